@@ -537,6 +537,9 @@ def gen_constants():
              "From Coq Require Import ZArith List String.", "Import ListNotations.", "Open Scope Z_scope."]
     for n in ("NAME", "OP", "STRING", "COMMENT"):
         lines.append(f"Definition T_{n} : Z := {tr.consts[n]}.")
+    import tokenize as T
+    for n in ("INDENT", "DEDENT"):
+        lines.append(f"Definition T_{n} : Z := {getattr(T, n)}.")
     for n, v in tr.states.items():
         lines.append(f"Definition S_{n} : Z := {v}.")
     for n, d in tr.dicts.items():
